@@ -138,6 +138,11 @@ BODIES = [
     ('default_used', '', ['return Pair(Leaf(q), q)']),
     ('collection_like_class', '', ['return Pair(Seq(Leaf(p), Leaf(q)), Seq())']),
     ('list_subclass', '', ['return Pair(LS([Leaf(p), q]), q)']),
+    ('tagged_factory_reused', '', ['t = with_tags(functools.partial(Leaf, p), T0)',
+                                   'return Box(arg_factory.partial(Pair, a=t), t, k=arg_factory.partial(Pair, b=t))']),
+    ('shadowed_builtin_names', '', ['zip = Leaf', 'sorted = mk', 'return Pair(zip(p), [sorted(q), len])']),
+    ('shadowed_builtin_in_comprehension', 'experimental_allow_control_flow=True',
+     ['filter = Leaf', 'return Box(*[filter(i + p) for i in range(2)], m=max)']),
 ]
 
 
